@@ -18,32 +18,6 @@ EXTENDS CdefOol, Json, IOUtils
 VARIABLES k, done
 Traces == JsonDeserialize(IOEnv.TRACE_FILE)
 
-Guard(ev, a) ==
-  CASE a.a = "DeclTypedef"     -> DeclTypedefG(ev, a.n, a.t)
-    [] a.a = "DeclTypedefAnon" -> DeclTypedefAnonG(ev, a.n, a.kind, a.fs)
-    [] a.a = "DeclFwd"         -> DeclFwdG(ev, a.kind, a.tag)
-    [] a.a = "DeclStruct"      -> DeclStructG(ev, a.kind, a.tag, a.fs)
-    [] a.a = "DeclEnum"        -> DeclEnumG(ev, a.tag, a.names, a.vals)
-    [] a.a = "DeclConst"       -> DeclConstG(ev, a.form, a.n, a.val)
-    [] a.a = "DeclFunc"        -> DeclFuncG(ev, a.n, a.res, a.args, a.ell)
-    [] a.a = "DeclGlobal"      -> DeclGlobalG(ev, a.n, a.t)
-    [] OTHER -> FALSE
-Effect(ev, a) ==
-  CASE a.a = "DeclTypedef"     -> DeclTypedefE(ev, a.n, a.t)
-    [] a.a = "DeclTypedefAnon" -> DeclTypedefAnonE(ev, a.n, a.kind, a.fs)
-    [] a.a = "DeclFwd"         -> DeclFwdE(ev, a.kind, a.tag)
-    [] a.a = "DeclStruct"      -> DeclStructE(ev, a.kind, a.tag, a.fs)
-    [] a.a = "DeclEnum"        -> DeclEnumE(ev, a.tag, a.names, a.vals)
-    [] a.a = "DeclConst"       -> DeclConstE(ev, a.form, a.n, a.val)
-    [] a.a = "DeclFunc"        -> DeclFuncE(ev, a.n, a.res, a.args, a.ell)
-    [] a.a = "DeclGlobal"      -> DeclGlobalE(ev, a.n, a.t)
-
-RECURSIVE Run(_, _, _)
-Run(beh, i, ev) ==
-  IF i > Len(beh) THEN [env |-> ev, bad |-> 0]
-  ELSE IF Guard(ev, beh[i]) THEN Run(beh, i + 1, Effect(ev, beh[i]))
-  ELSE [env |-> ev, bad |-> i]
-
 Has(f, x) == x \in DOMAIN f
 
 \* ---- what the ideal says an FFI shows (shape of harness/modes_gen.py:observe)
